@@ -461,6 +461,9 @@ class World:
         if p.done:
             return
         p.kill = True
+        prev = self.cur
+        if prev is not None:
+            prev.env = dict(os.environ)
         self.in_observer = True  # effects of finally:/except: clauses while unwinding are discarded below
         snap = None
         try:
@@ -473,6 +476,9 @@ class World:
             if snap is not None:
                 self.restore(snap)
             self.in_observer = False
+            self.cur = prev  # the killer (e.g. the process that ran scancel) carries on as itself
+            if prev is not None:
+                self._set_environ(prev.env)
         p.dead = True
 
     def snapshot(self):
